@@ -81,7 +81,7 @@ enum { EV_ALLOC, EV_FREE, EV_MEMZERO, EV_RAND, EV_TIME, EV_KDF, EV_NFKD, EV_NFC,
 typedef struct {
     int kind; char impl;
     long a, b, c;            /* generic numeric fields */
-    uint64_t u;
+    uint64_t u, u2;
     size_t n1, n2, n3;
     uint8_t d1[EVBUF], d2[EVBUF];
     uint8_t d3[64];
@@ -129,7 +129,7 @@ static blk_t* blk_of(const void* p, long* off) {
 /* environment of the next calls */
 static TLS struct {
     uint8_t rand[64]; size_t rand_n;
-    uint64_t time, libctime;
+    uint64_t time, libctime, libcnsec;
     uint8_t mask[64];
     unsigned fail;              /* bit n set: the n-th allocation request of a call fails */
     int alloc_no;
@@ -202,11 +202,15 @@ static void do_kdf(const uint8_t* pw, size_t pwlen, const uint8_t* salt, size_t 
     cp(e->d2, &e->n2, salt, saltlen > 64 ? 64 : saltlen);
     e->n2 = saltlen;
     e->u = iterations;
-    e->a = (long)keylen;
+    e->a = (long)(keylen & 0xffff); e->c = (long)((keylen >> 16) & 0xffff); e->n3 = 0;
+    e->u2 = (keylen >> 32) > 0xffff ? 0xffff : (keylen >> 32);
     e->b = (key == kdf_key_ptr);       /* the caller's buffer, unaltered */
-    /* output: the scheduled mask (first 64 bytes), then a call-unique filler */
-    for (size_t i = 0; i < keylen; ++i) key[i] = i < 64 ? env.mask[i] : (uint8_t)(kdf_fill + i);
-    e->n3 = keylen < 64 ? keylen : 64;
+    /* output: the scheduled mask (first 64 bytes), then a call-unique filler; never beyond the real buffer */
+    size_t wr = keylen;
+    if (key == kdf_key_ptr && wr > kdf_key_len) wr = kdf_key_len;
+    if (wr > 1000) wr = 1000;
+    for (size_t i = 0; i < wr; ++i) key[i] = i < 64 ? env.mask[i] : (uint8_t)(kdf_fill + i);
+    e->n3 = wr < 64 ? wr : 64;
     memcpy(e->d3, key, e->n3);
 }
 
@@ -348,7 +352,9 @@ time_t __wrap_time(time_t* t) {
     }
     return __real_time(t);
 }
-/* sources of time and randomness the library must never consult */
+/* sources of time, randomness and memory the library must never consult.  They are reported as
+   Forbidden events; the clocks among them answer with the SCHEDULED libc time (seconds and
+   nanoseconds), so that a library that consults them behind the injected clock shows it in its results */
 #define FORBID(name, ret, args, call) \
     ret __real_##name args; \
     ret __wrap_##name args { \
@@ -356,11 +362,80 @@ time_t __wrap_time(time_t* t) {
         return __real_##name call; }
 FORBID(rand, int, (void), ())
 FORBID(random, long, (void), ())
-FORBID(clock_gettime, int, (clockid_t c, struct timespec* ts), (c, ts))
+FORBID(rand_r, int, (unsigned* s_), (s_))
+FORBID(drand48, double, (void), ())
+FORBID(lrand48, long, (void), ())
+FORBID(mrand48, long, (void), ())
+FORBID(arc4random, uint32_t, (void), ())
+FORBID(arc4random_buf, void, (void* b, size_t n), (b, n))
+FORBID(arc4random_uniform, uint32_t, (uint32_t u), (u))
+FORBID(clock, clock_t, (void), ())
 struct timeval; struct timezone;
-FORBID(gettimeofday, int, (struct timeval* tv, void* tz), (tv, tz))
+int __real_clock_gettime(clockid_t c, struct timespec* ts);
+int __wrap_clock_gettime(clockid_t c, struct timespec* ts) {
+    if (in_api && !in_stub) {
+        SA.which = S_FORBID; SA.p1 = "clock_gettime"; stub_dispatch();
+        if (ts) { ts->tv_sec = (time_t)env.libctime; ts->tv_nsec = (long)env.libcnsec; }
+        return 0;
+    }
+    return __real_clock_gettime(c, ts);
+}
+int __real_timespec_get(struct timespec* ts, int base);
+int __wrap_timespec_get(struct timespec* ts, int base) {
+    if (in_api && !in_stub) {
+        SA.which = S_FORBID; SA.p1 = "timespec_get"; stub_dispatch();
+        if (ts) { ts->tv_sec = (time_t)env.libctime; ts->tv_nsec = (long)env.libcnsec; }
+        return base;
+    }
+    return __real_timespec_get(ts, base);
+}
+struct drv_timeval { long tv_sec; long tv_usec; };
+int __real_gettimeofday(void* tv, void* tz);
+int __wrap_gettimeofday(void* tv, void* tz) {
+    if (in_api && !in_stub) {
+        SA.which = S_FORBID; SA.p1 = "gettimeofday"; stub_dispatch();
+        if (tv) { ((struct drv_timeval*)tv)->tv_sec = (long)env.libctime; ((struct drv_timeval*)tv)->tv_usec = (long)(env.libcnsec / 1000); }
+        return 0;
+    }
+    return __real_gettimeofday(tv, tz);
+}
 FORBID(getrandom, ssize_t, (void* b, size_t n, unsigned f), (b, n, f))
 FORBID(getentropy, int, (void* b, size_t n), (b, n))
+FORBID(posix_memalign, int, (void** pp, size_t a, size_t n), (pp, a, n))
+FORBID(aligned_alloc, void*, (size_t a, size_t n), (a, n))
+FORBID(memalign, void*, (size_t a, size_t n), (a, n))
+FORBID(valloc, void*, (size_t n), (n))
+FORBID(strdup, char*, (const char* x), (x))
+FORBID(strndup, char*, (const char* x, size_t n), (x, n))
+FORBID(explicit_bzero, void, (void* b, size_t n), (b, n))
+FORBID(strtok, char*, (char* a, const char* b), (a, b))
+/* the process environment is a hidden input: the scheduled answer (env langenv=...) is given for the
+   locale variables, so that a library that consults them shows it in its results */
+static TLS char env_lang[64];
+char* __real_getenv(const char* name);
+char* __wrap_getenv(const char* name) {
+    if (in_api && !in_stub) {
+        SA.which = S_FORBID; SA.p1 = "getenv"; stub_dispatch();
+        if (env_lang[0] && name && (!strncmp(name, "LC_", 3) || !strcmp(name, "LANG") || !strcmp(name, "LANGUAGE"))) return env_lang;
+    }
+    return __real_getenv(name);
+}
+char* __real_secure_getenv(const char* name);
+char* __wrap_secure_getenv(const char* name) {
+    if (in_api && !in_stub) {
+        SA.which = S_FORBID; SA.p1 = "getenv"; stub_dispatch();
+        if (env_lang[0] && name && (!strncmp(name, "LC_", 3) || !strcmp(name, "LANG") || !strcmp(name, "LANGUAGE"))) return env_lang;
+    }
+    return __real_secure_getenv(name);
+}
+char* __real_setlocale(int cat, const char* loc);
+char* __wrap_setlocale(int cat, const char* loc) {
+    if (in_api && !in_stub) {
+        SA.which = S_FORBID; SA.p1 = "setlocale"; stub_dispatch();
+        if (env_lang[0] && (loc == NULL || loc[0] == 0)) return env_lang;
+    }
+    return __real_setlocale(cat, loc);
+}
 FORBID(calloc, void*, (size_t a, size_t b), (a, b))
 FORBID(realloc, void*, (void* p, size_t n), (p, n))
 
@@ -479,6 +554,20 @@ static void needles_seed(const polyseed_data* s, polyseed_coin coin) {
     polyseed_data_to_poly(s, &poly);
     needles_indices(poly.coeff, POLYSEED_NUM_WORDS);
     if (coin) { poly.coeff[1] ^= coin; needles_indices(poly.coeff, 5); }
+#endif
+}
+
+/* the phrase in pointer form: consecutive pointers to the words (or to their table slots) determine the indices */
+static void needles_pointers(const polyseed_lang* l, const gf_elem* c, int n) {
+#ifndef DRV_SO
+    for (int i = 0; i + 3 <= n; ++i) {
+        const char* w[3]; const char* const* slot[3];
+        if (c[i] == c[i + 1] || c[i + 1] == c[i + 2] || c[i] == c[i + 2]) continue;
+        for (int j = 0; j < 3; ++j) { w[j] = l->words[c[i + j] % POLYSEED_LANG_SIZE]; slot[j] = &l->words[c[i + j] % POLYSEED_LANG_SIZE]; }
+        needle_add("ptr", w, sizeof w); needle_add("ptr", slot, sizeof slot);
+    }
+#else
+    (void)l; (void)c; (void)n;
 #endif
 }
 
@@ -604,9 +693,9 @@ static void flush_queue(void) {
             fprintf(out, "{\"e\":\"Time\",\"impl\":\"%c\"", e->impl);
             emit_limbs("val", e->u); break;
         case EV_KDF:
-            fprintf(out, "{\"e\":\"Kdf\",\"impl\":\"%c\",\"pwlen\":%zu,\"saltlen\":%zu,\"iter_lo\":%u,\"iter_hi\":%u,\"keylen\":%ld,\"callerkey\":%s",
+            fprintf(out, "{\"e\":\"Kdf\",\"impl\":\"%c\",\"pwlen\":%zu,\"saltlen\":%zu,\"iter_lo\":%u,\"iter_hi\":%u,\"keylen\":%ld,\"keylen_mid\":%ld,\"keylen_hi\":%lu,\"callerkey\":%s",
                 e->impl, e->n1, e->n2, (unsigned)(e->u & 0xffff), (unsigned)((e->u >> 16) > 0xffff ? 0xffff : (e->u >> 16)),
-                e->a > 1000000 ? 1000000 : e->a, e->b ? "true" : "false");
+                e->a, e->c, (unsigned long)e->u2, e->b ? "true" : "false");
             emit_bytes("pw", e->d1, e->n1 > EVBUF ? EVBUF : e->n1);
             emit_bytes("salt", e->d2, e->n2 > 64 ? 64 : e->n2);
             emit_bytes("out", e->d3, e->n3); break;
@@ -794,6 +883,7 @@ static void reset_all(void) {
     nev = 0; nblk = 0; next_blk_id = 1; next_handle_id = 1;
     polyseed_enable_features(0);
     memset(&env, 0, sizeof env);
+    env_lang[0] = 0;
     env.rand_n = 19; env.time = 1700000000ull; env.libctime = 1800000000ull;
     for (int r = 0; r < NREG; ++r) { bset[r] = false; if (sregs[r].p) { __real_free(sregs[r].p); sregs[r].p = NULL; } sregs[r].set = false; }
 }
@@ -876,6 +966,8 @@ static void run_script(FILE* in) {
                 if (!strncmp(tok[i], "rand=", 5)) env.rand_n = unhex(tok[i] + 5, env.rand, sizeof env.rand);
                 else if (!strncmp(tok[i], "time=", 5)) env.time = strtoull(tok[i] + 5, NULL, 10);
                 else if (!strncmp(tok[i], "libctime=", 9)) env.libctime = strtoull(tok[i] + 9, NULL, 10);
+                else if (!strncmp(tok[i], "libcnsec=", 9)) env.libcnsec = strtoull(tok[i] + 9, NULL, 10);
+                else if (!strncmp(tok[i], "langenv=", 8)) { strncpy(env_lang, strcmp(tok[i] + 8, "-") ? tok[i] + 8 : "", sizeof env_lang - 1); }
                 else if (!strncmp(tok[i], "mask=", 5)) { memset(env.mask, 0, sizeof env.mask); unhex(tok[i] + 5, env.mask, sizeof env.mask); }
                 else if (!strncmp(tok[i], "fail=", 5)) env.fail = (unsigned)strtoul(tok[i] + 5, NULL, 10);
             }
@@ -990,6 +1082,10 @@ static void run_script(FILE* in) {
             fprintf(out, "{\"e\":\"Begin\",\"op\":\"Encode\",\"h\":%d,\"lang\":\"%s\",\"coin\":%d", hregs[hr].id, tok[2], (int)C.coin); eol();
             memset(g_str_out_area, 0xEE, sizeof g_str_out_area);
             needles_seed(C.seed, C.coin);
+#ifndef DRV_SO
+            { gf_poly pp = { 0 }; pp.coeff[0] = C.seed->checksum; polyseed_data_to_poly(C.seed, &pp); pp.coeff[1] ^= C.coin;
+              needles_pointers(l, pp.coeff, POLYSEED_NUM_WORDS); }
+#endif
             api_call(true);
             /* the output must be terminated inside the caller's buffer and must not spill over */
             size_t slen = strnlen(g_str_out_area[0], sizeof g_str_out_area[0]);
@@ -1034,6 +1130,11 @@ static void run_script(FILE* in) {
             if (C.st == POLYSEED_OK && C.seed_out) {
                 /* second scan with the decoded seed's own values */
                 needles_seed(C.seed_out, C.coin);
+#ifndef DRV_SO
+                { const polyseed_lang* dl = ex ? C.lang : C.lang_out;
+                  if (dl) { gf_poly pp = { 0 }; pp.coeff[0] = C.seed_out->checksum; polyseed_data_to_poly(C.seed_out, &pp); pp.coeff[1] ^= C.coin;
+                            needles_pointers(dl, pp.coeff, POLYSEED_NUM_WORDS); } }
+#endif
                 scan_stack();
             }
             finish_constructor(ex ? "DecodeX" : "Decode", hr);
@@ -1101,17 +1202,18 @@ static void run_script(FILE* in) {
         }
         else if (!strcmp(op, "keygen")) {
             int hr = reg(tok[1]); if (!hregs[hr].p) continue;
-            C.op = OP_KEYGEN; C.seed = hregs[hr].p; C.coin = (polyseed_coin)atoi(tok[2]); C.size = (size_t)atoi(tok[3]);
-            if (C.size > 1000) C.size = 1000;
-            kdf_key_ptr = g_key_out; kdf_key_len = C.size; kdf_fill = (uint8_t)(n_lines * 7 + 13);
+            C.op = OP_KEYGEN; C.seed = hregs[hr].p; C.coin = (polyseed_coin)atoi(tok[2]); C.size = (size_t)strtoull(tok[3], NULL, 10);
+            /* sizes above 1000 are passed to the library as they are; the KDF stub writes at most 1000 bytes */
+            kdf_key_ptr = g_key_out; kdf_key_len = C.size > 1000 ? 1000 : C.size; kdf_fill = (uint8_t)(n_lines * 7 + 13);
             memset(g_key_out, 0xEE, sizeof g_key_out);
-            fprintf(out, "{\"e\":\"Begin\",\"op\":\"Keygen\",\"h\":%d,\"coin\":%d,\"size\":%zu", hregs[hr].id, (int)C.coin, C.size); eol();
+            fprintf(out, "{\"e\":\"Begin\",\"op\":\"Keygen\",\"h\":%d,\"coin\":%d,\"size\":%zu,\"size_mid\":%zu,\"size_hi\":%zu", hregs[hr].id, (int)C.coin,
+                C.size & 0xffff, (C.size >> 16) & 0xffff, (C.size >> 32) > 0xffff ? (size_t)0xffff : (C.size >> 32)); eol();
             needles_seed(C.seed, 0);
             api_call(true);
             /* the key buffer must hold exactly what the KDF wrote, and nothing beyond it */
             bool keyok = true;
-            for (size_t i = 0; i < C.size; ++i) { uint8_t want = i < 64 ? env.mask[i] : (uint8_t)(kdf_fill + i); if (g_key_out[i] != want) keyok = false; }
-            for (size_t i = C.size; i < sizeof g_key_out; ++i) if (g_key_out[i] != 0xEE) keyok = false;
+            for (size_t i = 0; i < kdf_key_len; ++i) { uint8_t want = i < 64 ? env.mask[i] : (uint8_t)(kdf_fill + i); if (g_key_out[i] != want) keyok = false; }
+            for (size_t i = kdf_key_len; i < sizeof g_key_out; ++i) if (g_key_out[i] != 0xEE) keyok = false;
             flush_queue();
             emit_ret_common("Keygen"); fprintf(out, ",\"keyintact\":%s", keyok ? "true" : "false");
             emit_ret_end();
@@ -1187,10 +1289,13 @@ int main(int argc, char** argv) {
 static const char* trace_prefix;
 static pthread_barrier_t start_barrier;
 
+static char** thread_scripts;
+
 static void* thread_main(void* arg) {
-    const char* path = arg;
-    static int counter = 0;
-    int me = __sync_fetch_and_add(&counter, 1);
+    /* the trace file number is the script's position on the command line, not the order in which
+       the threads happen to start */
+    int me = (int)(intptr_t)arg;
+    const char* path = thread_scripts[me];
     char name[4096];
     snprintf(name, sizeof name, "%s.%d", trace_prefix, me);
     FILE* in = fopen(path, "r");
@@ -1247,7 +1352,8 @@ int main(int argc, char** argv) {
     if (!prot_lo) { fprintf(stderr, "driver_mt: library object not found\n"); return 2; }
 #endif
     pthread_t th[64];
-    for (int i = 0; i < n && i < 64; ++i) pthread_create(&th[i], NULL, thread_main, argv[3 + i]);
+    thread_scripts = argv + 3;
+    for (int i = 0; i < n && i < 64; ++i) pthread_create(&th[i], NULL, thread_main, (void*)(intptr_t)i);
     for (int i = 0; i < n && i < 64; ++i) pthread_join(th[i], NULL);
 #ifdef DRV_SO
     prot = PROT_READ | PROT_WRITE;
